@@ -3,12 +3,12 @@ CONSTANTS
   GPUs = {1, 2}
   Unit = 1
   PortCap = 2
-  MCFrames <- Frames2
+  MCFrames <- Frames3
   FrameChunks = 2
-  MaxMig = 2
+  MaxMig = 3
   Serial = TRUE
   Requesters = {1, 2}
-  MCPages <- Pages1
+  MCPages <- Pages2
   SkipZero = FALSE
   AcceptGuard = "handling"
 INVARIANTS TypeOK ContentsCopied NothingElseChanged CompleteOnce OneAtATime RoutedBack InRange AllServed
